@@ -554,6 +554,10 @@ func (w *worldA) checkApplied(nd *simNode, idx uint64, ce *committedEntry, snaps
 			w.e.issued[v] = sn
 		}
 	}
+	if nd.seqAfter == nil {
+		nd.seqAfter = map[uint64]uint64{}
+	}
+	nd.seqAfter[post] = nd.raw.LastWALSequenceNumber()
 	r.Count("oracle.apply_checked")
 }
 
